@@ -102,10 +102,24 @@ def small_universe(rng, nkeys=6, ndata=5, hostile=True, sizes=None):
     return prog
 
 
+def deep_json(rng, depth=None):
+    """a scalar wrapped `depth` times in one-element arrays or {"a": ..} objects: around the JSON
+    reader's recursion limit (the record itself is one level; 128 levels are the limit)"""
+    depth = depth or rng.choice([100, 125, 126, 127, 128, 129, 200])
+    v = rng.choice([1, "leaf", None, True])
+    obj = rng.random() < 0.5
+    for _ in range(depth):
+        v = {"a": v} if obj else [v]
+    return v
+
+
 def rand_opts(rng, full=False):
     o = {}
     if full and rng.random() < 0.05:
         o["meta"] = {"big": "B" * rng.choice([8200, 66000]), "tail": [1, 2, 3]}
+        return o
+    if full and rng.random() < 0.06:
+        o["meta"] = deep_json(rng)
         return o
     if rng.random() < (0.7 if full else 0.3):
         o["time"] = str(rand_time(rng))
@@ -268,7 +282,7 @@ def _mk_data(prog, rng, n):
 
 
 def write_steps(rng, prog, lane, d, n, algo, key=None, how="oneshot", chunks=None, opts=None,
-                alias="w", all_=True):
+                alias="w", all_=True, explicit_algo=True):
     """steps that store blob d (length n) through one entry point"""
     st = []
     if how == "oneshot":
@@ -279,7 +293,8 @@ def write_steps(rng, prog, lane, d, n, algo, key=None, how="oneshot", chunks=Non
         st.append(s)
         return st
     o = dict(opts or {})
-    o["algo"] = algo
+    if explicit_algo or algo != "sha256":
+        o["algo"] = algo                    # (otherwise: the algorithm is left to its default)
     s = {"op": "open_writer", "lane": lane, "opts": o, "as": alias, "plan": d, "via": "opts"}
     if how == "create" and key and algo == "sha256":
         s["via"] = "create"
@@ -357,6 +372,11 @@ def commit_program(rng, ncases, lanes=ALL_LANES, big=False, algos=("sha256", "sh
         n = rng.choice([MIB - 1, MIB, MIB + 1] if big else [0, 1, 5, 100, 5000])
         d = _mk_data(prog, rng, n)
         algo = rng.choice(algos)
+        # the algorithm left to its default while an integrity value is declared (of the default
+        # or of ANOTHER algorithm: the declared value must not select the hash the writer computes)
+        noalgo = rng.random() < 0.3
+        if noalgo:
+            algo = "sha256"
         other = rng.choice([a for a in ("sha256", "sha512", "sha1", "sha384") if a != algo])
         lane = rng.choice(lanes)
         keyed = rng.random() < 0.75
@@ -376,6 +396,8 @@ def commit_program(rng, ncases, lanes=ALL_LANES, big=False, algos=("sha256", "sh
         elif sz == "more":
             opts["size"] = n + rng.choice([1, 7, 5000])
         sk = rng.choice(["none", "none", "right", "wrong", "other", "multi_weaker", "multi_stronger"])
+        if noalgo and rng.random() < 0.5:
+            sk = "other"
         if sk == "right":
             opts["sri"] = [{"a": algo, "d": d}]
         elif sk == "wrong":
@@ -397,7 +419,8 @@ def commit_program(rng, ncases, lanes=ALL_LANES, big=False, algos=("sha256", "sh
         if key:
             prog["steps"].append({"op": "metadata", "lane": rng.choice(lanes), "key": key})
         ch = rng.choice(chunkings(rng, n, big))
-        prog["steps"] += write_steps(rng, prog, lane, d, n, algo, key, "opts", ch, opts, alias="w%d" % c)
+        prog["steps"] += write_steps(rng, prog, lane, d, n, algo, key, "opts", ch, opts, alias="w%d" % c,
+                                     explicit_algo=not noalgo)
         if key:
             prog["steps"].append({"op": "metadata", "lane": rng.choice(lanes), "key": key})
             prog["steps"].append({"op": "read", "lane": rng.choice(lanes), "key": key})
@@ -583,7 +606,7 @@ def damage_steps(rng, prog, algo, d, n, others, exhaustive_small=False):
         alts.append({"op": "env_content", "algo": algo, "blob": d, "mode": "overwrite", "off": rng.randrange(n),
                      "bytes": bytes(rng.randrange(256) for _ in range(rng.randrange(1, 9))).hex()})
     alts.append({"op": "env_content", "algo": algo, "blob": d, "mode": "extend",
-                 "extra": bytes(rng.randrange(256) for _ in range(rng.randrange(1, 5))).hex()})
+                 "extra": bytes(rng.randrange(256) for _ in range(rng.choice([1, 2, 3, 4, 4096, 8192]))).hex()})
     alts.append({"op": "env_content", "algo": algo, "blob": d, "mode": "remove"})
     if others:
         o = rng.choice(others)
@@ -598,7 +621,8 @@ def retrieve_program(rng, rounds, lanes=ALL_LANES, big=False, algos=ALGOS, exhau
     prog = {"keys": {}, "blobs": {}, "steps": []}
     prog["_pre"] = add_blob(prog, b"pre-existing destination")
     entries = []
-    sizes = [MIB - 1, MIB + 1] if big else [0, 1, 5, 40, 1000, 9000]
+    # (sizes on both sides of, and exactly at, multiples of the usual read-buffer sizes)
+    sizes = [MIB - 1, MIB, MIB + 1] if big else [0, 1, 5, 40, 1000, 9000, 8192, 16384, 65536, 8191, 8193]
     for i in range(3 if not big else 2):
         n = rng.choice(sizes)
         d = _mk_data(prog, rng, n)
@@ -611,6 +635,28 @@ def retrieve_program(rng, rounds, lanes=ALL_LANES, big=False, algos=ALGOS, exhau
     for r in range(rounds):
         k, a, d, n = rng.choice(entries)
         others = [(aa, dd) for (_, aa, dd, _) in entries if dd != d]
+        if exhaustive is None and rng.random() < 0.2:
+            # the destination of an extraction ALREADY IS a hard link to this entry's content (an
+            # earlier hard_link put it there), pristine or since damaged in place (same inode)
+            x = "own%d" % r
+            sri = [{"a": a, "d": d}]
+            first = {"op": "extract", "lane": rng.choice(lanes), "kind": "hard_link", "checked": rng.random() < 0.5, "to": x}
+            first.update({"key": k} if rng.random() < 0.5 else {"sri": sri})
+            own = [first]
+            if n > 0 and rng.random() < 0.5:
+                own.append(dict(rng.choice([{"mode": "flip", "bit": rng.randrange(n * 8)},
+                                            {"mode": "cut", "len": rng.randrange(0, n)},
+                                            {"mode": "extend", "extra": "00ff"}]),
+                                op="env_content", algo=a, blob=d, inplace=True))
+            for _ in range(rng.choice([1, 2])):
+                second = {"op": "extract", "lane": rng.choice(lanes), "kind": rng.choice(["copy", "copy", "hard_link", "reflink"]),
+                          "checked": rng.random() < 0.6, "to": x}
+                second.update({"key": k} if rng.random() < 0.5 else {"sri": sri})
+                own.append(second)
+            own += [{"op": "read", "lane": rng.choice(lanes), "key": k}, {"op": "read", "lane": rng.choice(lanes), "sri": sri}]
+            # (the address holds regular pristine content here: every round ends with a re-write)
+            prog["steps"] += own
+            prog["steps"].append({"op": "write", "lane": rng.choice(lanes), "key": k, "data": d, "algo": a})
         if exhaustive is not None:
             dmg = exhaustive(r, a, d, n)
             if dmg is None:
@@ -633,6 +679,35 @@ def retrieve_program(rng, rounds, lanes=ALL_LANES, big=False, algos=ALGOS, exhau
         if dmg is not None and dmg.get("mode") == "swap":
             o = dmg["other"]
             prog["steps"].append({"op": "write", "lane": rng.choice(lanes), "data": o["blob"], "algo": o["algo"]})
+    del prog["_pre"]
+    return prog
+
+
+def boundary_retrieve_program(rng, sizes=(8192, 16384), lanes=("S", "Aa", "Ta")):
+    """systematic: entries whose size is a multiple of the usual read-buffer sizes x damage at the
+    very end of the file (one byte more, one buffer more, one byte less, last bit flipped) x every
+    checked extraction and read entry point, by key AND by address, in a blocking and both async
+    lanes (verification loops that stop on a byte count instead of end-of-file live here)"""
+    prog = {"keys": {}, "blobs": {}, "steps": []}
+    prog["_pre"] = add_blob(prog, b"pre-existing destination")
+    xc = 0
+    for i, n in enumerate(sizes):
+        d = _mk_data(prog, rng, n)
+        a = rng.choice(["sha256", "sha512", "sha1"])
+        k = add_key(prog, rand_key(rng, i))
+        sri = [{"a": a, "d": d}]
+        prog["steps"].append({"op": "write", "lane": rng.choice(lanes), "key": k, "data": d, "algo": a})
+        for dm in ({"mode": "extend", "extra": "00"}, {"mode": "extend", "extra": "ab" * 8192},
+                   {"mode": "cut", "len": n - 1}, {"mode": "flip", "bit": n * 8 - 1}):
+            prog["steps"].append(dict(dm, op="env_content", algo=a, blob=d))
+            for lane in lanes:
+                for tgt in ({"key": k}, {"sri": sri}):
+                    prog["steps"].append(dict({"op": "read", "lane": lane}, **tgt))
+                    for kind in ("copy", "hard_link"):
+                        prog["steps"].append(dict({"op": "extract", "lane": lane, "kind": kind, "checked": True,
+                                                   "to": "bx%d" % xc}, **tgt))
+                        xc += 1
+            prog["steps"].append({"op": "write", "lane": rng.choice(lanes), "key": k, "data": d, "algo": a})
     del prog["_pre"]
     return prog
 
@@ -805,6 +880,12 @@ def link_program(rng, ncases, lanes=ALL_LANES):
         xc += 1
         prog["steps"].append({"op": "extract", "lane": rng.choice(lanes), "kind": "copy", "checked": True,
                               "to": x, "sri": sri})
+        if rng.random() < 0.25:
+            # extraction whose destination is the very file the entry links to: the target must
+            # come out of it unchanged (a copy of a file onto itself)
+            prog["steps"].append({"op": "extract", "lane": rng.choice(lanes), "kind": rng.choice(["copy", "copy", "hard_link"]),
+                                  "checked": rng.random() < 0.5, "to": t, "sri": sri})
+            prog["steps"].append({"op": "read", "lane": rng.choice(lanes), "sri": sri})
         # the target changes / disappears / is replaced after linking
         after = rng.choice(["keep", "change", "remove", "replace_same"])
         if after == "change":
@@ -832,6 +913,33 @@ def link_program(rng, ncases, lanes=ALL_LANES):
 
 GARBAGE_LINES = [b"", b"garbage", b"\x00\x00\x00", b"\xff\xfe\xfd", b"\xc3\x28", b"a\tb", b"a\tb\tc",
                  b"deadbeef\t{}", b"\xe2\x82", b"{\"key\":1}", b"\r", b"x\r"]
+
+
+def _hashed(payload):
+    """a line whose checksum MATCHES its payload (what the checksum protects is the text, not
+    that the text is a record)"""
+    return (hashlib.sha256(payload).hexdigest() + "\t").encode() + payload
+
+
+# correctly checksummed lines whose payload is not a record the readers accept: not JSON, JSON of
+# another shape, a record with a field missing / of the wrong type / out of range, a record nested
+# deeper than the reader's recursion limit (a foreign writer, an older version, a stray tool)
+GARBAGE_LINES += [_hashed(x) for x in (
+    b"{}", b"[]", b"null", b"not json", b"{\"key\":1}", b"42", b"\"text\"",
+    b'{"key":"k","integrity":null,"size":0,"metadata":null}',                       # no time
+    b'{"key":"k","integrity":null,"time":-1,"size":0,"metadata":null}',
+    b'{"key":"k","integrity":null,"time":1,"size":-1,"metadata":null}',
+    b'{"key":"k","integrity":null,"time":1.5,"size":0,"metadata":null}',
+    b'{"key":"k","integrity":null,"time":"1","size":0,"metadata":null}',
+    b'{"key":"k","integrity":7,"time":1,"size":0,"metadata":null}',
+    b'{"key":"k","integrity":null,"time":1,"size":0}',                              # no metadata
+    b'{"key":"k","integrity":null,"time":1,"size":0,"metadata":null,"raw_metadata":"x"}',
+    b'{"key":"k","integrity":null,"time":1,"size":0,"metadata":null,"raw_metadata":[256]}',
+    b'{"key":"k","integrity":null,"time":340282366920938463463374607431768211456,"size":0,"metadata":null}',
+    b'{"key":"k","integrity":null,"time":1,"size":18446744073709551616,"metadata":null}',
+    b'{"key":"k","integrity":null,"time":1,"size":0,"metadata":' + b"[" * 200 + b"]" * 200 + b"}",
+    b'{"key":"k","integrity":null,"time":1,"size":0,"metadata":' + b'{"a":' * 127 + b"1" + b"}" * 127 + b"}",
+)]
 
 
 def index_damage_program(rng, lanes=ALL_LANES, nrec=3, flips="sample", cuts="all", multibyte=True):
